@@ -166,6 +166,20 @@ func BuildMem(name, content string, oo ...core.Option) (b *Built) {
 	return b
 }
 
+// BuildBytes builds a single-file project from a caller-owned byte slice (the library must not modify it).
+func BuildBytes(name string, content []byte, oo ...core.Option) (b *Built) {
+	b = &Built{}
+	defer func() {
+		if r := recover(); r != nil {
+			b.Panic = CatchPanic(r)
+		}
+	}()
+	j, je := kit.NewJApiFromFile(fs.NewFile(name, content), oo...)
+	b.J = j
+	b.Err = FromJErr(je)
+	return b
+}
+
 // BuildDisk builds the project whose root file is at path.
 func BuildDisk(path string, oo ...core.Option) (b *Built) {
 	b = &Built{}
